@@ -87,8 +87,9 @@ def compile_kernel(pyx_path, variant):
     versions = _tool_versions()
     numpy_inc, py_inc = versions[-3], versions[-2]
     cc, cflags, ldflags = FLAGS[variant]
+    modname = os.path.splitext(os.path.basename(pyx_path))[0]
     key = hashlib.sha256(
-        b"\0".join([pyx, variant.encode(), repr((cc, cflags, ldflags)).encode(),
+        b"\0".join([pyx, modname.encode(), variant.encode(), repr((cc, cflags, ldflags)).encode(),
                     "\n".join(versions).encode()])).hexdigest()[:24]
     target = os.path.join(CACHE, "%s-%s%s" % (variant, key, EXT_SUFFIX))
     if os.path.exists(target):
@@ -104,12 +105,16 @@ def compile_kernel(pyx_path, variant):
             src = pyx.decode("utf-8")
             if variant == "bc":
                 src = bc_transform(src)
-            p = os.path.join(work, "set_operations.pyx")
+            p = os.path.join(work, modname + ".pyx")
             with open(p, "w") as f:
                 f.write(src)
+            # .pxd / .pxi files of the package may be cimported / included
+            for extra in os.listdir(os.path.dirname(pyx_path)):
+                if extra.endswith((".pxd", ".pxi")):
+                    shutil.copy2(os.path.join(os.path.dirname(pyx_path), extra), os.path.join(work, extra))
             r = subprocess.run(
                 [PYTHON, "-m", "cython", "-3", p, "-o",
-                 os.path.join(work, "set_operations.c")],
+                 os.path.join(work, modname + ".c")],
                 capture_output=True, text=True, cwd=work)
             if r.returncode != 0:
                 raise RuntimeError("cython failed:\n" + r.stdout + r.stderr)
@@ -117,7 +122,7 @@ def compile_kernel(pyx_path, variant):
             r = subprocess.run(
                 [cc] + cflags + ["-I", numpy_inc, "-I", py_inc,
                                  "-DNPY_NO_DEPRECATED_API=NPY_1_7_API_VERSION",
-                                 os.path.join(work, "set_operations.c")]
+                                 os.path.join(work, modname + ".c")]
                 + ldflags + ["-o", so],
                 capture_output=True, text=True, cwd=work)
             if r.returncode != 0:
@@ -126,9 +131,9 @@ def compile_kernel(pyx_path, variant):
             os.replace(target + ".tmp", target)
         finally:
             shutil.rmtree(work, ignore_errors=True)
-        # keep the cache small: newest 9 objects
+        # keep the cache small: newest 18 objects
         objs = sorted(glob.glob(os.path.join(CACHE, "*" + EXT_SUFFIX)), key=os.path.getmtime)
-        for old in objs[:-9]:
+        for old in objs[:-18]:
             try:
                 os.unlink(old)
             except OSError:
@@ -152,10 +157,16 @@ class Shadow:
         for name in os.listdir(self.src):
             if name.endswith((".py", ".pyx", ".pxd")):
                 shutil.copy2(os.path.join(self.src, name), os.path.join(pkg, name))
-        so = compile_kernel(os.path.join(self.src, "set_operations.pyx"), variant)
-        shutil.copy2(so, os.path.join(pkg, "set_operations" + EXT_SUFFIX))
-        with open(os.path.join(self.src, "set_operations.pyx")) as f:
-            self.bc = bc_stats(f.read())
+        # every Cython module of the package is compiled from the working tree (today: set_operations)
+        self.bc = {"boundscheck_on": 0, "boundscheck_still_off": 0}
+        for name in sorted(os.listdir(self.src)):
+            if name.endswith(".pyx"):
+                so = compile_kernel(os.path.join(self.src, name), variant)
+                shutil.copy2(so, os.path.join(pkg, os.path.splitext(name)[0] + EXT_SUFFIX))
+                with open(os.path.join(self.src, name)) as f:
+                    st = bc_stats(f.read())
+                for k in self.bc:
+                    self.bc[k] += st[k]
         self.pkg = pkg
 
     def env(self, extra=None):
